@@ -25,8 +25,18 @@ def fc(x=None, y=None):
   return Rec('fc', [('x', x), ('y', y)], (), {})
 
 
-FNS = [fa, fb, fc]
-PARAMS = {fa: ['p', 'q', 'r', 'k'], fb: ['p', 'q', 's', 'extra1', 'extra2'], fc: ['x', 'y']}
+import os as _os
+import sys as _sys
+
+_TOP = _os.path.join(_os.path.dirname(_os.path.abspath(__file__)), 'c13lib', 'top')
+if _TOP not in _sys.path:
+  _sys.path.insert(0, _TOP)
+import layers as top_layers                      # a single-file top-level module ...
+from harness.c13lib import layers as pkg_layers  # ... and a package module with the same last name
+
+FNS = [fa, fb, fc, pkg_layers.Dense, top_layers.Dense]
+PARAMS = {fa: ['p', 'q', 'r', 'k'], fb: ['p', 'q', 's', 'extra1', 'extra2'], fc: ['x', 'y'],
+          pkg_layers.Dense: ['units', 'inner'], top_layers.Dense: ['units', 'inner']}
 
 
 class Gen:
